@@ -75,6 +75,7 @@ type Engine struct {
 	undecided []string // keyed functions/loops that no longer exist
 	missing   []missingItem // functions / loops named by a contract that the code no longer has
 	localClause string // label of the clause over locals being type-checked
+	precallSites []token.Pos // positions of the calls the precall clause being checked guards
 	broken    []string // engine-level problems (spec does not type-check, ...)
 	mirrorSrc map[string]string
 	warnings  []string
@@ -505,7 +506,9 @@ func (eng *Engine) checkContract(u *FuncUnit) {
 	}
 	for _, pc := range u.C.PreCalls {
 		eng.localClause = "precall:" + pc.Cl.Label
+		eng.precallSites = eng.callSites(u, pc.Re)
 		eng.checkClause(u.Pkg, pc.Cl, u.Decl.Body.Rbrace, u, false)
+		eng.precallSites = nil
 		eng.localClause = ""
 	}
 	for n, cl := range u.C.ClosureAccepts {
@@ -707,6 +710,19 @@ func (eng *Engine) uniqueLocal(u *FuncUnit, name string) *types.Var {
 			continue
 		}
 		if v, ok := obj.(*types.Var); ok && !v.IsField() {
+			// a precall clause is evaluated at the guarded calls: a variable whose scope
+			// does not contain all of them cannot be meant
+			if len(eng.precallSites) > 0 && v.Parent() != nil {
+				all := true
+				for _, p := range eng.precallSites {
+					if !v.Parent().Contains(p) {
+						all = false
+					}
+				}
+				if !all {
+					continue
+				}
+			}
 			found = v
 			n++
 		}
@@ -715,6 +731,33 @@ func (eng *Engine) uniqueLocal(u *FuncUnit, name string) *types.Var {
 		return nil
 	}
 	return found
+}
+
+// callSites returns the positions of the calls in u whose callee matches re.
+func (eng *Engine) callSites(u *FuncUnit, re *regexp.Regexp) []token.Pos {
+	var out []token.Pos
+	ast.Inspect(u.Decl.Body, func(n ast.Node) bool {
+		c, ok := n.(*ast.CallExpr)
+		if !ok {
+			return true
+		}
+		var fn *types.Func
+		switch f := ast.Unparen(c.Fun).(type) {
+		case *ast.Ident:
+			fn, _ = u.Pkg.TypesInfo.Uses[f].(*types.Func)
+		case *ast.SelectorExpr:
+			if sel, ok := u.Pkg.TypesInfo.Selections[f]; ok {
+				fn, _ = sel.Obj().(*types.Func)
+			} else {
+				fn, _ = u.Pkg.TypesInfo.Uses[f.Sel].(*types.Func)
+			}
+		}
+		if fn != nil && re.MatchString(fn.FullName()) {
+			out = append(out, c.Pos())
+		}
+		return true
+	})
+	return out
 }
 
 // fileQualifier names packages the way the file declaring u imports them.
